@@ -149,6 +149,11 @@ func (x *Exec) Run() (err error) {
 				panic(unsupported("ghost anchor \"" + g.Text + "\" not found (contract-anchor-lost)"))
 			}
 		}
+		for _, ca := range x.contract.CallArgs {
+			if !x.callArgsDone[ca] {
+				panic(unsupported(fmt.Sprintf("callarg %s#%d: no such call (contract-anchor-lost)", ca.Callee, ca.Ordinal)))
+			}
+		}
 		for _, a := range x.contract.Asserts {
 			if !x.assertsDone[a] {
 				panic(unsupported("assert anchor \"" + a.Text + "\" not found (contract-anchor-lost)"))
@@ -944,7 +949,13 @@ func (x *Exec) havocLike(v Val, hint string) Val {
 		return Agg{Elems: out}
 	case *SliceV:
 		s := *y
-		s.Off = x.vc.fresh(hint+"_off", sortInt)
+		if strings.HasPrefix(hint, "cut_") {
+			// the position of the slice within its backing store is not expressible in a cut formula; the
+			// value it has at the cut is kept (forgetting less is sound)
+			s.Off = y.Off
+		} else {
+			s.Off = x.vc.fresh(hint+"_off", sortInt)
+		}
 		s.Len = x.vc.fresh(hint+"_len", sortInt)
 		s.Cap = x.vc.fresh(hint+"_cap", sortInt)
 		x.vc.assume(mkAnd(mkCmp("<=", intT64(0), s.Off), mkCmp("<=", intT64(0), s.Len), mkCmp("<=", s.Len, s.Cap), mkCmp("<=", s.Cap, intT64(maxSliceLen)), mkCmp("<=", s.Off, intT64(maxSliceLen))))
